@@ -228,11 +228,56 @@ def evaluated_sets(ctx, rep):
     return nsets
 
 
+SITE_TWICE = "bads.py:evaluation-of-a-filtered-candidate"
+
+
+def evaluated_once(ctx, rep):
+    """The property's consequence, on whole runs: a deterministic target is never evaluated twice at the same point, except for the single
+    repeat of the starting point that implements the noise test (the 2nd call, not recorded).  Each repeat found is tagged with whether the
+    repeated point came out of a contraints_check call of the same iteration although it was already in the log handed to that call
+    (`passed_by_filter`: the consequence of the known finding C17-fresh) or reached the target some other way (never explained by it)."""
+    from . import runlevel
+    traces = runlevel.get_pool(ctx)
+    nruns = nrep = 0
+    for t in traces:
+        if not t["constructed"] or t["hdr"] is None or t["spec"]["mode"] != "det":
+            continue
+        nruns += 1
+        seen = {}
+        reported = set()
+        filt_out = []          # outputs of the filter calls since the last iteration boundary
+        for idx, (k, e) in enumerate(t["events"]):
+            if k == "ITER":
+                filt_out = []
+            elif k == "FILT":
+                filt_out.append((idx, {tuple(r) for r in e.get("out", [])}, e.get("logn", 0)))
+            elif k == "CALL" and "exc" not in e:
+                key = tuple(e["u"])
+                if e["k"] == 1 and not e["rec"] and key in seen:
+                    continue                      # the noise test
+                if key in seen:
+                    via = [i for i, out, logn in filt_out if key in out and logn > 0]
+                    tags = {"passed_by_filter": bool(via)}
+                    if tags["passed_by_filter"] in reported:
+                        continue               # one report per run and kind (explained by the known filter defect / not explained)
+                    reported.add(tags["passed_by_filter"])
+                    nrep += 1
+                    rep.violation("evaluated_once", SITE_TWICE,
+                                  f"deterministic target evaluated again at a point it was already evaluated at (call #{e['k']} repeats call #{seen[key]}, phase {e['phase']}); "
+                                  + ("the point came out of contraints_check although it was in the log" if via else "the point did NOT come out of a filter call of this iteration")
+                                  + f"; {runlevel.spec_tag(t['spec'])}",
+                                  {"kind": "filter_run", "spec": t["spec"], "event_index": via[-1] if via else -1, "tags": tags, "call": e["k"], "first_call": seen[key]})
+                    continue
+                seen[key] = e["k"]
+    return nruns, nrep
+
+
 def run(ctx):
     rep = Report()
     from . import runlevel as _rl, c02 as _c02
     _rl.with_extra(ctx, "c02coarse", lambda: _c02.coarse_specs(ctx))
     nsets = evaluated_sets(ctx, rep)
+    n_det, n_rep = evaluated_once(ctx, rep)
     cases = gen_cases(ctx)
     n, nt, hist = check_cases(ctx, cases, rep)
     kinds = {}
@@ -254,7 +299,7 @@ def run(ctx):
         "samples": [_jsonable(c) for c in cases[:: max(1, len(cases) // 4)][:4]],
         "input_kinds": kinds,
         "clause_failures_on_impl": hist,
-        "traces_validated_against_impl": run_cov.get("runs", 0), "evaluated_sets_checked": nsets,
+        "traces_validated_against_impl": run_cov.get("runs", 0), "evaluated_sets_checked": nsets, "deterministic_runs_checked_for_repeats": n_det, "runs_with_a_repeated_evaluation": n_rep,
         "run_level": run_cov,
         "exhaustive": not ctx.quick,
     }
@@ -272,6 +317,7 @@ def replay(ctx, data):
         from . import runlevel
         runlevel.replay_filter_run(ctx, rep, case)
         evaluated_sets(ctx, rep)
+        evaluated_once(ctx, rep)
     return rep
 
 
